@@ -12,6 +12,45 @@ if os.environ.get('VERIF_PROBE_LINESEP') == 'crlf':
     os.linesep = '\r\n'
 
 
+if os.environ.get('VERIF_PROBE_CLOCK'):
+    # a machine whose clock reads another year (set before the library is imported): nothing the library computes from a
+    # text depends on today's date
+    import datetime as _dt
+    import time as _time
+    _year = int(os.environ['VERIF_PROBE_CLOCK'])
+    _epoch = (_dt.datetime(_year, 1, 1) - _dt.datetime(1970, 1, 1)).total_seconds()
+    _real_time = _time.time
+    _t0 = _real_time()
+
+    def _now():
+        return _epoch + (_real_time() - _t0)
+
+    class _Date(_dt.date):
+        @classmethod
+        def today(cls):
+            return cls.fromtimestamp(_now())
+
+    class _DateTime(_dt.datetime):
+        @classmethod
+        def now(cls, tz=None):
+            return cls.fromtimestamp(_now(), tz)
+
+        @classmethod
+        def utcnow(cls):
+            return cls.utcfromtimestamp(_now())
+
+        @classmethod
+        def today(cls):
+            return cls.fromtimestamp(_now())
+    _dt.date, _dt.datetime = _Date, _DateTime
+    _time.time = _now
+    _real_lt, _real_gm = _time.localtime, _time.gmtime
+    _time.localtime = lambda secs=None: _real_lt(_now() if secs is None else secs)
+    _time.gmtime = lambda secs=None: _real_gm(_now() if secs is None else secs)
+    _real_strftime = _time.strftime
+    _time.strftime = lambda fmt, t=None: _real_strftime(fmt, _time.localtime() if t is None else t)
+
+
 def resolve(mod, qual):
     o = importlib.import_module(mod)
     for part in qual.split('.'):
